@@ -3,7 +3,7 @@
    jump out of blocks / closure creation / &x / reads and writes through variables and pointers) and over every
    pool capacity K (gomacro: K = poolCapacity = 32). *)
 From Coq Require Import List Arith ZArith Bool.
-From Verif Require Import C06.Model C06.Proof C06.Proof2 C06.Proof3 C06.Proof4 C06.Proof5.
+From Verif Require Import C06.Model C06.Proof C06.Proof2 C06.Proof3 C06.Proof4 C06.Proof5 C06.AddrModel C06.AddrProof.
 Import ListNotations.
 
 (* a frame marked UsedByClosure has a marked Outer: why MarkUsedByClosure may stop at the first marked frame *)
@@ -80,6 +80,49 @@ Theorem C06_call_protocol_results : forall K st rs call caller rest, stack st = 
 Proof. exact call_protocol_results. Qed.
 Print Assumptions C06_call_protocol_results.
 
+(* ---------------- which frame gets IntAddressTaken (AddrModel.v; harness: address matrix kind x upn) ---------------- *)
+(* [OAddr upn slot] = `&x` evaluated in the current frame, x owned by the frame upn Outer hops up.  A successful
+   address-of yields a pointer into the Ints array of exactly that OWNING frame, sets IntAddressTaken on exactly that
+   frame (its array stays attached), and changes no other frame, no array, neither the pool nor the stack. *)
+Theorem C06_addr_flags_owning_frame : forall K st upn slot st',
+  step K st (OAddr upn slot) = (st', RNone) ->
+  exists g a, owner_of st upn = Some g /\ g < nfr st /\ f_arr (getf st g) = Some a /\
+              ptrs st' = ptrs st ++ [(a, slot)] /\
+              f_arr (getf st' g) = Some a /\ f_iat (getf st' g) = true /\
+              (forall f, f <> g -> getf st' f = getf st f) /\
+              arrs st' = arrs st /\ pool st' = pool st /\ stack st' = stack st.
+Proof. exact addr_flags_owner. Qed.
+Print Assumptions C06_addr_flags_owning_frame.
+
+(* after EVERY history: the frame whose Ints array a pointer targets is flagged (freeEnv will detach the array instead
+   of recycling it) and no other frame shares that array *)
+Theorem C06_pointer_owner_flagged : forall K ops a i f, let st := exec K ops in
+  In (a, i) (ptrs st) -> f < nfr st -> f_arr (getf st f) = Some a ->
+  f_iat (getf st f) = true /\ forall g, g < nfr st -> f_arr (getf st g) = Some a -> g = f.
+Proof. exact pointer_owner_flagged. Qed.
+Print Assumptions C06_pointer_owner_flagged.
+
+(* the operation with the position of the flag assignment inside the Outer walk as a parameter: Model.v's OAddr is
+   "flag after the whole walk" (early = 0), and the refinement theorem holds for that machine *)
+Theorem C06_addr_op_flags_after_walk : forall K st upn slot, step K st (OAddr upn slot) = addr_of_int 0 st upn slot.
+Proof. exact addr_of_int_0. Qed.
+Print Assumptions C06_addr_op_flags_after_walk.
+
+Theorem C06_captured_value_stable_upn : forall K ops, outs_refine (outputs_e 0 K ops) (soutputs ops) = true.
+Proof. exact outputs_e_refine. Qed.
+Print Assumptions C06_captured_value_stable_upn.
+
+(* flag set one hop early (`env.IntAddressTaken = true` before `env = env.Outer`, the seeded regression
+   C08-addr-flag-uint32-outer): on the demo's history (function, block with a local, &param from inside the block,
+   called twice) the two pointers are the SAME location and the outputs do not refine the Go-spec machine *)
+Theorem C06_addr_flag_one_hop_early_refuted :
+  outs_refine (outputs_e 1 poolCapacity alias_hist) (soutputs alias_hist) = false /\
+  outputs_e 1 poolCapacity alias_hist <> outputs_e 0 poolCapacity alias_hist /\
+  nth_error (ptrs (exec_e 1 poolCapacity alias_hist)) 0 = nth_error (ptrs (exec_e 1 poolCapacity alias_hist)) 1 /\
+  nth_error (ptrs (exec_e 0 poolCapacity alias_hist)) 0 <> nth_error (ptrs (exec_e 0 poolCapacity alias_hist)) 1.
+Proof. exact early_flag_refuted. Qed.
+Print Assumptions C06_addr_flag_one_hop_early_refuted.
+
 (* ---------------- non-vacuity and executable checks ---------------- *)
 (* a counter: call #0 (nv=0, ni=2), x := 5 in slot 1, closure over the frame, &x, return; then 40 unrelated calls
    churn the pool; then the closure is called and reads x through Outer, the pointer reads x *)
@@ -103,3 +146,7 @@ Proof. vm_compute. split; reflexivity. Qed.
 (* without the UsedByClosure test (a frame freed although captured) the same history would hand frame 2 to the
    churn calls: the model of the seeded mutation reads 9 instead of 5 — shown on the spec side by the refinement
    failing is left to the mutation self-test of the harness *)
+(* the address-matrix shape: the pointers of two successive calls are distinct locations, each reads its own seed *)
+Example C06_ex_alias_hist : filter (fun o => match o with RVal _ => true | _ => false end) (outputs poolCapacity alias_hist)
+  = [RVal (Some 30%Z); RVal (Some 3%Z)].
+Proof. vm_compute. reflexivity. Qed.
